@@ -154,6 +154,42 @@ def correspond(ctx, binary, ops, label=""):
     ctx.cov["correspondence_diffs"] = ctx.cov.get("correspondence_diffs", 0) + ndiff
     return impl, model, verdicts
 
+# ------------------------------------------------------------------ PNG / JPEG / TIFF: supporting evidence only
+EXT_FORMATS = [("png", "rgb8"), ("png", "rgba8"), ("png", "gray8"), ("jpg", "rgb8"), ("jpg", "gray8"), ("tif", "rgb8"), ("tif", "rgba8"), ("tif", "gray8")]
+
+def ext_evidence(ctx, binary):
+    """the same mutation stream over files written by GIL's own writers; no model: judged by the Spec's
+       no-ub / terminates clauses only (the codec libraries are not modelled); returns a summary dict"""
+    r, th = ctx.rng, ctx.thorough()
+    hdir = os.path.join(ctx.scratch, "hx"); os.makedirs(hdir, exist_ok=True)
+    env = dict(os.environ); env.pop("ASAN_OPTIONS", None); env.pop("UBSAN_OPTIONS", None); env["C11_NO_EXT"] = "1"
+    gens = ["gen %s %s %d %d %d" % (f, d, w, h, r.below(2 ** 32)) for (f, d) in EXT_FORMATS for (w, h) in ((1, 1), (5, 3), (16, 9))]
+    out = run_chunks([binary, hdir], gens, 4, env=env)
+    ops, tags = [], []
+    for g, o in zip(gens, out):
+        if not o.startswith("hex "): ctx.notes.append("ext: writer failed for %s: %s" % (g, o[:80])); continue
+        _, f, d, w, h, _ = g.split(); b = bytes.fromhex(o[4:])
+        devs = ["name", "stream"] if f == "tif" else DEVS
+        muts = [("valid", b)] * len(devs) + G.truncations(b, r, False)[:: (1 if th else 3)] + G.random_mutations(b, r, 60 if th else 16) + \
+               G.tail_corruptions(b, min(len(b) - 1, 24), r, 4 if th else 1)
+        for k, (m, x) in enumerate(muts):
+            e = "info" if k % 4 == 3 else "image"
+            ops.append(mkop(f, e, devs[k % len(devs)], d, x)); tags.append("%s/%s" % (f, m))
+    impl = run_chunks([binary, hdir], ops, ctx.jobs, env=env)
+    dist, bad = {}, []
+    for o, a in zip(ops, impl):
+        w = o.split(); key = "%s/%s/%s" % (w[0], w[1], w[2]); c = obs_class(a)
+        dist.setdefault(key, {}); dist[key][c] = dist[key].get(c, 0) + 1
+        if a.startswith(("ub:", "assert@", "abort@", "crash:", "timeout", "harness")):
+            f = {"op": o, "impl": a, "model": "(no model: external codec)", "clause": "fail no-undefined-behaviour [supporting evidence stream: " + w[0] + "]"}
+            k = vlib.match_known(ctx.prop, f, vlib.load_known())
+            if k is not None:
+                if k["id"] not in [x["id"] for x in ctx.known_hits]: ctx.known_hits.append({"id": k["id"], "what": k.get("what", ""), "example": f, "count": 1})
+            else: bad.append(f)
+    ctx.failures.extend(bad)
+    return {"label": "partial: PNG/JPEG/TIFF payload decoding is libpng/libjpeg/libtiff (not modelled); only GIL's glue is exercised, judged for sanitizer reports / assertion failures / timeouts",
+            "files_written_by_gil": len(gens), "inputs": len(ops), "distribution": dist, "failures": len(bad)}
+
 ASSUME = [
     "every single allocation above 64 KiB fails with std::bad_alloc in harness and model alike (declared sizes beyond that are explored only up to the allocation)",
     "std::ifstream stands for std::istream; file name and FILE* share file_stream_device",
@@ -169,8 +205,11 @@ def obs_class(a):
 
 def run(ctx, ops=None):
     obligations, discharged = vlib.standard_proof_steps(ctx)
-    binary, err = vlib.compile_harness(ctx, "harness/C11/main.cpp", defines=["_GLIBCXX_ASSERTIONS"])
-    samples, distinct, dist = [], 0, {}
+    with cf.ThreadPoolExecutor(2) as ex:      # the two harness builds in parallel
+        fx = ex.submit(vlib.compile_harness, ctx, "harness/C11/main.cpp", "C11_ext", (), ["-lpng", "-ltiff", "-ltiffxx", "-ljpeg", "-lz"], True, "-O1", ["_GLIBCXX_ASSERTIONS", "C11_EXT"])
+        binary, err = vlib.compile_harness(ctx, "harness/C11/main.cpp", defines=["_GLIBCXX_ASSERTIONS"])
+        xbinary, xerr = fx.result()
+    samples, distinct, dist, ext = [], 0, {}, None
     if binary is None:
         ctx.broken.append(("harness", "compile", err[-1500:])); ctx.log("harness does not compile:\n" + err[-1500:])
     else:
@@ -185,13 +224,18 @@ def run(ctx, ops=None):
         for i in (0, len(ops) // 4, len(ops) // 2, 3 * len(ops) // 4, len(ops) - 1):
             samples.append({"op": ops[i][:160], "impl": impl[i][:160], "model": model[i][:160], "judge": verdicts[i][:160]})
         ctx.cov["nondet"] = sum(1 for b in model if b.startswith("nondet:"))
+        if tags is not None:       # full run (not a replay): the supporting-evidence stream
+            if xbinary is None: ctx.notes.append("ext harness does not compile (supporting evidence skipped): " + xerr[-300:])
+            else:
+                ext = ext_evidence(ctx, xbinary)
+                ctx.log("supporting evidence png/jpeg/tiff: %d inputs, %d failures" % (ext["inputs"], ext["failures"]))
     return vlib.finish(ctx, "proof", obligations, discharged,
         rule="op = (format, entry point, device, destination type, settings, file bytes); files: valid files of every decoder variant, every/sampled "
              "truncation point, header field x boundary values, data-area corruptions, seeded multi-byte mutations; non-trivial = every op except a "
              "successful read_image_info (distinct op lines counted)",
         samples=samples, distinct_nontrivial=distinct, assumptions=ASSUME, trusted_base=vlib.TRUSTED_BASE + [
             "ASan/UBSan/_GLIBCXX_ASSERTIONS detect the out-of-range accesses the model names (red zone 2 KiB); the model's `nondet` answers are not compared"],
-        extra={"input_distribution": dist, "model_nondet": ctx.cov.get("nondet", 0),
+        extra={"input_distribution": dist, "model_nondet": ctx.cov.get("nondet", 0), "supporting_evidence_png_jpeg_tiff": ext,
                "known_finding_counts": {k["id"]: k.get("count", 1) for k in ctx.known_hits}})
 
 def replay(ctx, path):
